@@ -2999,11 +2999,11 @@ RCP<const Basic> gamma_multiple_2(const RCP<const Basic> &arg)
             coeff = minus_one;
         }
     }
-    int j = 1;
-    for (int i = 3; i < 2 * k->as_int(); i = i + 2) {
-        j = j * i;
+    integer_class j(1);
+    for (long i = 3; i < 2 * k->as_int(); i = i + 2) {
+        j = j * integer_class(i);
     }
-    coeff = mulnum(coeff, integer(j));
+    coeff = mulnum(coeff, integer(std::move(j)));
     if (arg_->is_positive()) {
         return div(mul(coeff, sqrt(pi)), pow(i2, n));
     } else {
